@@ -23,6 +23,12 @@ STRENGTHENED = {
     "C04c": "1 disagreement in 2500 at first: added idiom 85 (CR/LF/BS/TAB inside an open CSI/OSC/DCS followed by a printable continuation) and a chunk mode that cuts right behind every CR/LF",
     "C12c": "4 disagreements at first: the sb family got a step 'enough history, scrolled-back view, SU by >= rows lines'",
     "C01c": "4 disagreements at first: added idiom 84 (erase runs of blank cells that differ only in text-mode bits)",
+    "C04d": "MISSED by the first run (needs a resize callback that applies the request, followed in the same chunk by a sequence that reads the size): the chunk family now uses the resizing policy in a quarter of its cases and appends resize-request + size-reading sequences",
+    "C06d": "MISSED by the first run (CUU/CPL starting below the bottom margin of a region whose top is not row 0): idiom 79 got cursor movements, and the csi family sets up 'region + cursor outside it' before its single operation in a sixth of the cases",
+    "C14d": "MISSED by the first run (scrolled-back view with rows wider than the screen, window past the right edge): the text family builds mixed-width views; the C14 oracle no longer skips them (its reference reads the cells a row actually has)",
+    "C16d": "MISSED by the first run (history at the old width, widening resize, pending-wrap cursor at the new edge, scrolled-back view, then an emitter): added exactly that scenario to the resize family",
+    "C18d": "MISSED by the first run (unknown colour-space selector after 48 followed by more parameters): SGR lists and the table family got `38/48;sel;tail` forms; the report carries no-failing-input-found in the C18 check when only the pen differs (that clause is C09's) and is attributed when the event log differs",
+    "C15d": "manifests as a failure of the property only at 65535 columns (outside the modelled domain, MAXDIM = 65520); the emitted bytes differ at every size, so the correspondence reports it with no-failing-input-found",
     "C18b": "caught by the oracle's token table only: added idiom 83 (ESC with intermediates and every kind of final byte)",
 }
 res = {}
@@ -40,7 +46,7 @@ out.append("## 12. Seeded changes: which check catches which change\n")
 out.append("Each row is one change written by an independent worker who saw only the property text and a scratch\n"
            "worktree (never `/verif`); each compiles, passes the unedited 67-test suite + doctest, and breaks the property\n"
            "on a concrete input (the worker's demonstration test, re-run by us with and without the change). The\n"
-           "changes live in `seeded/<id>/` (`patch.diff`, `seeded_demo.rs`, `meta.json`; suffix b = second round, c = third round, whose workers were told what the first two changes were and asked for a different function and mechanism) and are never committed to `/repo`.\n"
+           "changes live in `seeded/<id>/` (`patch.diff`, `seeded_demo.rs`, `meta.json`; suffix b = second round, c/d = third and fourth round, whose workers were told what the earlier changes were and asked for a different function and mechanism; the fourth round was also asked for changes that alter behaviour on as few inputs as possible) and are never committed to `/repo`.\n"
            "`tools/run_seeded.sh` applies one, runs `./check <property> --tier quick` (seed 1), undoes it. Columns:\n"
            "*dis* = cases where model and implementation differ, *orc* = cases where the implementation-level oracle\n"
            "fails; *mechanism* = what the first reported replay rests on (`correspondence+oracle(k)`: the states/bytes\n"
@@ -58,8 +64,8 @@ for sid in ids:
     if rc == "1":
         ok += 1
     out.append("| %s | %s | %s | %s | %s | %s%s | %s |\n" % (sid, s, rc, d, o, how, " (no-failing-input-found)" if nf else "", STRENGTHENED.get(sid, "caught as generated")))
-out.append("\n%d of %d changes are reported as `VIOLATION` (exit 1) by the quick tier of the property they target; none of the\n"
-           "reports ends in `no-failing-input-found`. On the unchanged tree the same 19 commands exit 0.\n" % (ok, len(ids)))
+out.append("\n%d of %d changes are reported as `VIOLATION` (exit 1) by the quick tier of the property they target; %d of the\n"
+           "reports end in `no-failing-input-found` (correspondence broken, no concrete failing input: see the history column). On the unchanged tree the same 19 commands exit 0.\n" % (ok, len(ids), sum(1 for v in res.values() if v[3])))
 out.append("\nWhat the table shows about the design: every change to *logic* is seen first by the correspondence (the model\n"
            "computes the prescribed result, the crate something else); the oracle then says which clause of the\n"
            "property is violated and supplies the replay. Changes that only manifest on rare inputs were the ones missed at\n"
